@@ -1143,6 +1143,51 @@ def r8(k: Kit) -> None:
     rep.floor('C14.R8', 'single-name reply reads', m, 2)
 
 
+def r10(k: Kit) -> None:
+    """Error text built from peer bytes can always be sent back."""
+    rep = k.rep
+    idx = k.idx
+    rep.rule('C14.R10', 'every SFTPError raised inside sftp.py with a reason '
+             'built from bytes of the request decodes them with a handler '
+             'that yields encodable text (backslashreplace / replace / '
+             'ignore), never os.fsdecode or surrogateescape: the status '
+             'reply is encoded as strict UTF-8 inside the except clause of '
+             '_process_packet, where a UnicodeEncodeError ends the SFTP '
+             'session without a reply to this or any outstanding request')
+    n = 0
+    for fi in idx.iter_funcs(['sftp']):
+        for r in ast.walk(fi.node):
+            if not (isinstance(r, ast.Raise) and isinstance(r.exc, ast.Call)):
+                continue
+            nm = dotted(r.exc.func) or ''
+            if not nm.startswith('SFTP'):
+                continue
+            for c in ast.walk(r.exc):
+                if not isinstance(c, ast.Call):
+                    continue
+                d = dotted(c.func) or ''
+                bad = d in ('os.fsdecode', 'fsdecode') or (
+                    isinstance(c.func, ast.Attribute) and
+                    c.func.attr == 'decode' and any(
+                        isinstance(a, ast.Constant) and
+                        a.value in ('surrogateescape', 'surrogatepass')
+                        for a in list(c.args) +
+                        [kw.value for kw in c.keywords]))
+                if isinstance(c.func, ast.Attribute) and \
+                        c.func.attr == 'decode' or d.endswith('fsdecode'):
+                    n += 1
+                    rep.check(not bad, 'C14.R10',
+                              key(fi, f'{nm} reason is encodable'),
+                              norm(c)[:60],
+                              f'`{norm(c)[:70]}` puts lone surrogates into '
+                              f'the reason of {nm}: encoding the status '
+                              'reply raises UnicodeEncodeError inside the '
+                              'except handler, the server\'s SFTP task dies '
+                              'and the request (and every other outstanding '
+                              'one) gets no reply', fi.loc(c))
+    rep.floor('C14.R10', 'peer bytes decoded into error text', n, 2)
+
+
 def run(idx, rep, tier):
     k = Kit(idx, rep)
     rep.assumptions += NOT_DECIDED
@@ -1160,3 +1205,4 @@ def run(idx, rep, tier):
              'constructor, not a class attribute shared by all sessions of '
              'the process (ids are per session: two sessions both use id 0)')
     per_instance_state(k, 'C14.R9', ['sftp'], 5)
+    r10(k)
